@@ -1,6 +1,11 @@
 package rules
 
 func init() {
+	property(&Property{ID: "C01",
+		Rules: []string{"K.compare", "O2.lww", "O2.rga", "A1", "K.id"},
+		Explanation: "tbd",
+		Assumptions: []string{"tbd"},
+	})
 	property(&Property{ID: "C03",
 		Rules: []string{"O2.purge", "VV.server", "K.vv", "O2.cache"},
 		Explanation: "tbd",
